@@ -209,6 +209,7 @@ func (s *SkipList) Find(key []byte) *entry {
 		}
 		// When we exit this loop, current.next[level] is either nil or >= key
 	}
+	verifhook.At("sl.find.descended")
 
 	// We're now at level 0 with current just before the potential target
 	// Check next node to see if it's our target key
@@ -318,6 +319,7 @@ func (it *Iterator) Seek(key []byte) {
 		}
 		// When we exit this loop, current.next[level] is either nil or >= key
 	}
+	verifhook.At("sl.seek.descended")
 
 	// Move to the next node at level 0, which should be >= target
 	it.current = current.getNext(0)
